@@ -319,7 +319,9 @@ impl FileTimeMatcher {
                 e.duration()
             }
         };
-        let age_in_seconds: i64 = age.as_secs() as i64 * if is_negative { -1 } else { 1 };
+        // An age beyond i64 seconds saturates instead of wrapping to the other sign.
+        let age_in_seconds: i64 =
+            i64::try_from(age.as_secs()).unwrap_or(i64::MAX) * if is_negative { -1 } else { 1 };
 
         // rust division truncates towards zero (see
         // https://github.com/rust-lang/rust/blob/master/src/libcore/ops.rs#L580 )
@@ -388,7 +390,9 @@ impl FileAgeRangeMatcher {
                 e.duration()
             }
         };
-        let age_in_seconds: i64 = age.as_secs() as i64 * if is_negative { -1 } else { 1 };
+        // An age beyond i64 seconds saturates instead of wrapping to the other sign.
+        let age_in_seconds: i64 =
+            i64::try_from(age.as_secs()).unwrap_or(i64::MAX) * if is_negative { -1 } else { 1 };
         let age_in_minutes = age_in_seconds / 60 + if is_negative { -1 } else { 0 };
         Ok(self.minutes.imatches(age_in_minutes))
     }
